@@ -24,6 +24,54 @@ func init() {
 	}
 }
 
+func init() {
+	// deep.MustCopy[T]: trusted to return a deep, unshared copy; its value is the uninterpreted deepcopy(x)
+	rulePrefixes["deep.MustCopy["] = func(x *Exec, fr *Frame, st *State, ins ssa.Instruction, sig *types.Signature, args []Value) Value {
+		x.assumed["library: deep.MustCopy returns a deep copy that shares no memory with its argument (its value is the uninterpreted deepcopy(x); nil for nil)"] = true
+		rt := sig.Results().At(0).Type()
+		r := UF("deepcopy_"+sortTag(sortOf(rt)), sortOf(rt), args[0].T)
+		x.assume(st, x.wf(st, r, rt))
+		if sortOf(rt) == sortIface {
+			x.assume(st, Eq(Acc(r, 0), Acc(args[0].T, 0)))
+		}
+		return Value{T: r}
+	}
+	// clone.Secure is a reflect walk (not interpreted, see C17). A-secure-frame: it writes only the Req of
+	// Actions and the Resp of Attempts reachable from its argument, which in every clone function is the
+	// object under construction: objects allocated since the entry of the function under verification.
+	rules["clone.Secure"] = func(x *Exec, fr *Frame, st *State, ins ssa.Instruction, sig *types.Signature, args []Value) Value {
+		x.assumed["A-secure-frame: clone.Secure (reflect, not interpreted) replaces only Action.Req / Attempt.Resp values of objects allocated by the clone under construction, by scrub(value)"] = true
+		for _, k := range []string{"H_workflow_Action_Req", "H_workflow_Attempt_Resp"} {
+			hs, ok := heapSorts[k]
+			if !ok {
+				continue
+			}
+			h := st.H(k, hs)
+			nh := freshHeap(st, k, "secured")
+			r := BoundVar("q_r", "Int")
+			lim := fr.top.entry.alloc
+			x.assume(st, Forall([]*Term{r}, [][]*Term{{Select(nh, r)}},
+				Eq(Select(nh, r), Ite(Ge(r, lim), UF("scrub", sortIface, Select(h, r)), Select(h, r)))))
+			st.setH(k, nh)
+		}
+		return x.resultValue(st, "secure_err", sig.Results())
+	}
+}
+
+var rulePrefixes = map[string]ruleFn{}
+
+func ruleFor(key string) ruleFn {
+	if r, ok := rules[key]; ok {
+		return r
+	}
+	for p, r := range rulePrefixes {
+		if len(key) >= len(p) && key[:len(p)] == p {
+			return r
+		}
+	}
+	return nil
+}
+
 // ruleNewError: errors.New / fmt.Errorf return a non-nil error that is a newly allocated object.
 func ruleNewError(x *Exec, fr *Frame, st *State, ins ssa.Instruction, sig *types.Signature, args []Value) Value {
 	tag := Fresh("errtag", "Int")
